@@ -32,6 +32,11 @@ HOSTILE = [
     b'"submatches":[{"match":{"text":"x"},"start":2,"end":1}]}}',
     b'{"type":"context","data":{"path":{"text":""},"lines":{"text":""},"line_number":18446744073709551615,"absolute_offset":0,'
     b'"submatches":[]}}',
+    # genuine-looking rg records: a match in front of tabs, multi-byte text behind them (tab expansion moves the offsets)
+    b'{"type":"match","data":{"path":{"text":"x"},"lines":{"text":"a\\t\xe6\x97\xa5\xe6\x9c\xac\\tb\\n"},"line_number":1,"absolute_offset":0,'
+    b'"submatches":[{"match":{"text":"a"},"start":0,"end":1}]}}',
+    b'{"type":"match","data":{"path":{"text":"x"},"lines":{"text":"\\t\\tab\xc3\xa9\\t\xe4\xb8\x96 ab\\n"},"line_number":2,"absolute_offset":9,'
+    b'"submatches":[{"match":{"text":"ab"},"start":2,"end":4},{"match":{"text":"ab"},"start":11,"end":13}]}}',
     b"ea82f2d0 (\xe4\xb8\x96\xe7\x95\x8c\xe4\xb8\x96\xe7\x95\x8c 2021-08-22 18:20:19 -0700 120) x",
     b"ea82f2d0 (A 2021-08-22 18:20:19 -0700 99999999999999999999999) x", b"ea82f2d0 (A 2021-13-45 25:61:61 -9999 1) x",
     b"^ea82f2d (A 0000-00-00 00:00:00 +0000 0)", b"src/a.rs:18446744073709551616:x", b"a.rs:1:", b":1:x", b"a.rs-1-", b"--",
@@ -117,6 +122,14 @@ def run(tier):
             body = b" " * np_ + b"ctx\n" + pl + b"\n" + b"+" * np_ + b"added\n" + pl + b"\n"
             for o in (accepted if tier == "thorough" else rnd.sample(accepted, 12) + [x for x in accepted if "raw" in x and "--plus-style" in x]):
                 jobs.append(("cc-prefix", hdr + body, o, f"cc-prefix[{i}] {np_} parents"))
+    # submodule lines in sequences git does not write (a duplicated or spliced patch): a third line after a complete pair, a
+    # pair inside a pair, a lone "+" line
+    SUBA, SUBB, SUBC = (b"Subproject commit " + ch * 40 for ch in (b"a", b"b", b"c"))
+    for i, seq in enumerate([[b"-" + SUBA, b"+" + SUBB, b"+" + SUBC], [b"-" + SUBA, b"-" + SUBB, b"+" + SUBC], [b"+" + SUBA, b"+" + SUBB],
+                             [b"-" + SUBA, b"+" + SUBB, b"-" + SUBC, b"+" + SUBA, b" ctx"], [b"-" + SUBA, b"@@ -1 +1 @@", b"+" + SUBB]]):
+        body = b"diff --git a/sub b/sub\nindex 1..2 160000\n--- a/sub\n+++ b/sub\n@@ -1 +1 @@\n" + b"\n".join(seq) + b"\n"
+        for o in (accepted if tier == "thorough" else rnd.sample(accepted, 10)):
+            jobs.append(("sub-seq", body, o, f"sub-seq[{i}]"))
     # (b) well-formed model histories under every accepted option set
     for h in base[:120 if tier == "quick" else 1500]:
         data, texts = gitskin.concretise(h, payload=lambda k, c: ("x" * (k * 7 % 60)) + " 世界\t́e")
